@@ -145,6 +145,24 @@ def r3(chk, prog):
                 callee_is(c, 'Handler::crossCheckArguments') for c in walk(loop) if c.get('k') in CALL_KINDS):
             ok = True
     chk.check(ok, 'R3', f.name, 'the modified handler is cross-checked against every member', f.loc())
+    # ... against EVERY other member: the loop that performs the comparison is left only at its end (or by the
+    # exception of a conflict) - whichever member was created first
+    cfg = f.cfg
+    for loop in loops_in(f):
+        if not (any(mentions_field(h, 'mArgGroups') for h in children(loop)[:-1]) and any(
+                callee_is(c, 'Handler::crossCheckArguments') for c in walk(loop) if c.get('k') in CALL_KINDS)):
+            continue
+        h = loop_header(cfg, loop)
+        body = cfg.succ[h][0]
+        seen = cfg.reach((body, 0), lambda pos, e: pos[0] == h)
+        off = []
+        if any(('exit_from', p_) in seen for p_ in cfg.pred[cfg.exit] if cfg.exit_kind(p_) == 'return'):
+            off.append('the scan can return before all members were compared')
+        out = cfg.succ[h][1]
+        if out is not None and out != cfg.exit and (out, 0) in seen:
+            off.append('the scan can be left by break before all members were compared')
+        chk.check(not off, 'R3', f.name, 'the cross-check visits every member handler, whatever the order of creation',
+                  f.loc(loop), '; '.join(off))
     # Handler::crossCheckArguments: all four container pairs
     f = prog.one('celma::prog_args::Handler', 'crossCheckArguments')
     pairs = set()
